@@ -20,13 +20,13 @@ open Zc Zc.Reply
 
 /-! ### the D5 purge on the reply model's queues -/
 
-/-- `pending.answers = {answer: additionals - remove for answer, additionals in pending.answers.items() if answer not in remove}` -/
-def purgeDict (W : List RecId) (d : Dict) : Dict :=
-  (d.filter (fun e => !W.contains e.1)).map (fun e => (e.1, e.2.filter (fun a => !W.contains a)))
+/-- `pending.answers = {answer: additionals - remove for answer, additionals in pending.answers.items() if answer not in remove}`:
+the reply model's own `Dict.withdraw` (`Model/Reply.lean`, the filter is the translated leaf `q_remove_keep`) -/
+def purgeDict (W : List RecId) (d : Dict) : Dict := d.withdraw W
 
-/-- `MulticastOutgoingQueue.async_remove_answers(records)`: groups, their windows and the armed timer stay -/
-def purgeQ (W : List RecId) (q : Queue) : Queue :=
-  { q with groups := q.groups.map (fun g => { g with answers := purgeDict W g.answers }) }
+/-- `MulticastOutgoingQueue.async_remove_answers(records)`: groups, their windows and the armed timer stay — the reply model's
+`Queue.removeRecords` (C12 proves its window / on-wire theorems over runs that contain it, `QEv.remove` / `Ev.qremove`) -/
+def purgeQ (W : List RecId) (q : Queue) : Queue := q.removeRecords W
 
 /-- `async_unregister_service` / `async_unregister_all_services` call it on `out_queue` and `out_delay_queue` -/
 def purgeH (W : List RecId) (h : Host) : Host := { h with outQ := purgeQ W h.outQ, delayQ := purgeQ W h.delayQ }
@@ -44,6 +44,7 @@ def KEv.time : KEv → Int
 /-- one block.  A reply-model block is accepted exactly when `Host.step` accepts it — which checks the event-loop facts `LoopAx`
 (`Reply.LoopAx.of_step`); the purge is an API block: it runs at any instant at which no timer is overdue. -/
 def kstep (h : Host) : KEv → Except String StepOut
+  | .blk (.qremove ..) => .error "a purge is the block KEv.purge"   -- (the reply model's own per-queue withdrawal block, C12; here both queues at once)
   | .blk e => h.step e
   | .purge t W => if h.notOverdue t then .ok { host := purgeH W h } else .error "clock-passed-a-due-timer"
 
